@@ -1,4 +1,5 @@
 import PV.Lemmas.IPCSysV
+import PV.Lemmas.IPCSysVInv
 /-!
 # C06, System V variant — named semaphore (`psemaphore-sysv.c` + key files of `pipc.c` over `PV.SysV.OS`)
 
@@ -23,6 +24,38 @@ theorem source_as_modelled :
     sites_p_semaphore_acquire = ["semop", "pp_semaphore_clean_handle", "pp_semaphore_create_handle", "semop"] ∧
     sites_p_semaphore_release = ["semop", "pp_semaphore_clean_handle", "pp_semaphore_create_handle"] ∧
     sites_p_ipc_unix_create_key_file = ["open"] ∧ sites_p_ipc_unix_get_ftok_key = ["stat"] := by decide
+
+/-! ## 1. one set per name -/
+
+/-- All handles of one name opened since the name's last creation refer to the same live semaphore set — for EVERY
+    schedule (any interleaving of the system calls of any calls of any threads of any processes, SIGKILLs, EINTR) —
+    under the two explicit hypotheses: (a) inode numbers are not reused (`Inv.bound.noreuse : g.os.reuse = false`, the
+    oracle of finding F15), (b) no owner free of the name in between (`QuietRun f g as`: no call is at the IPC_RMID /
+    unlink of a clean-up of `f`).  `Inv f i id`: key file `f` has inode `i`, whose key names the live set `id`, nothing
+    else refers to `i` / `id`; every live struct of `f` (PSemaphore, or the lock inside a PShm) has `sem_hdl = id`, every
+    struct of another name has a different id; every machine in flight (a call between two of its system calls) is
+    consistent with that.  `f` is a semaphore key file (`.sem n` or `.lock n`). -/
+theorem one_set_per_name (f : KeyFile) (i : Ino) (id : SemId) (hfs : ∀ n, f ≠ .shm n) (g : G) (as : List Action)
+    (h0 : Inv f i id g) (hq : QuietRun f g as) : Inv f i id (execAll g as) :=
+  inv_execAll f i id hfs as g h0 hq
+
+/-- … hence any two live handles of the name (in any processes) work on one live set: their `semop`s are the same
+    system call, and the key file still names that set -/
+theorem same_set (f : KeyFile) (i : Ino) (id : SemId) (g : G) (h1 h2 : Hid) (p1 p2 : Pid) (x1 x2 : PSem)
+    (hi : Inv f i id g) (e1 : g.hs h1 = some (p1, .sem x1)) (e2 : g.hs h2 = some (p2, .sem x2)) (f1 : x1.file = f) (f2 : x2.file = f) :
+    x1.hdl = some id ∧ x2.hdl = some id ∧ (g.os.sems id).alive = true ∧
+    (g.os.files f).bind (fun j => g.os.semKeys (ftokOf j)) = some id := by
+  have a1 := hi.hs h1 p1 _ e1
+  have a2 := hi.hs h2 p2 _ e2
+  simp only [Handle.inv, PSem.inv, f1, f2, if_true] at a1 a2
+  exact ⟨a1, a2, hi.bound.alive, by simp [hi.bound.file, hi.bound.key]⟩
+
+/-- frame: a step of a call working on ANOTHER name (its current key file is not `f`) leaves the set of `f` — value,
+    SEM_UNDO adjustments, liveness — untouched, and (by `one_set_per_name`) the binding as well -/
+theorem other_names_do_not_touch_the_set (f : KeyFile) (i : Ino) (id : SemId) (hfs : ∀ n, f ≠ .shm n) (g : G) (t : Tid) (intr : Bool)
+    (c : Call) (hi : Inv f i id g) (hq : Quiet f g) (hc : g.calls t = some c) (hf : c.file ≠ f) :
+    (g.step t intr).os.sems id = g.os.sems id :=
+  step_frame f i id hfs g t intr c hi hq hc hf
 
 /-! ## 2. acquire / release on a live set -/
 
